@@ -66,7 +66,8 @@ class Module(object):
             if node.level:
                 parts = self.name.split(".")
                 # level 1 = current package
-                anchor = parts[: len(parts) - node.level]
+                lvl = node.level - 1 if self.path.endswith("__init__.py") else node.level
+                anchor = parts[: len(parts) - lvl]
                 base = ".".join(anchor + ([base] if base else []))
             for a in node.names:
                 self.imports[a.asname or a.name] = (base + "." + a.name) if base else a.name
